@@ -106,7 +106,7 @@ pub use imp::*;
 // helpers shared by harnesses (ordinary Rust, executed symbolically like everything else)
 
 /// i32 in lo..=hi
-pub fn any_i32_in(lo: i32, hi: i32) -> i32 { let v = any_i32(); assume(lo <= v && v <= hi); v }
+pub fn any_i32_in(lo: i32, hi: i32) -> i32 { let v = any_i32(); assume((lo <= v) & (v <= hi)); v }
 pub fn any_usize_to(hi: usize) -> usize { let v = any_usize(); assume(v <= hi); v }
 pub fn any_opt_i32() -> Option<i32> { if any_bool() { Some(any_i32()) } else { None } }
 
